@@ -14,7 +14,8 @@
   Property theorems only; helper lemmas live in `Simpleline/Lemmas/LayoutOK*.lean`.
 -/
 import Simpleline.Props.C13
-import Simpleline.Lemmas.LayoutOKExamples
+import Simpleline.Lemmas.LayoutOKNewline
+import Simpleline.Lemmas.LayoutOKPlaceW
 
 namespace Simpleline
 
@@ -109,11 +110,13 @@ theorem C13_respects_window (cc : CharClass) (st : WSt) (title : Option (List Ch
   respects_window cc st title items w hfit
 
 /-- A list container with no forced columns width stays within the width it is rendered at if its
-items respect theirs — for every key pattern, any number of columns and any spacing: the whole
-drawing, not only the bands of `C13_within_width`, ends at or before column `w`. -/
+items respect theirs (item `i` is rendered at the columns width minus the length of its label) — for
+every key pattern, any number of columns and any spacing: the whole drawing, not only the bands of
+`C13_within_width`, ends at or before column `w`. -/
 theorem C13_respects_list (cc : CharClass) (st : WSt) (cm : Bool) (columns spacing : Nat)
     (kp : Option KeyPat) (u : Option Int) (nw : List NumW) (items : List Wd) (w : Int)
-    (hfit : ∀ it ∈ items, ∀ w', RespectsWidth cc it w') :
+    (hfit : ∀ i, (hi : i < items.length) →
+      RespectsWidth cc items[i] (usedWidth none columns spacing w - kpLabelLen kp i)) :
     RespectsWidth cc (.list st cm columns none spacing kp u nw items) w :=
   respects_list cc st cm columns spacing kp u nw items w hfit
 
@@ -139,6 +142,29 @@ theorem C13_forced_width_overflows :
   not_respects_of_row [['a', 'a', 'a', 'a', 'a', 'a', 'a', 'a']] (by decide +kernel)
     ['a', 'a', 'a', 'a', 'a', 'a', 'a', 'a'] (by simp) (by decide)
 
+/-- A centered widget whose child comes out wider than the width is outside the model's domain
+(`outOfDomain`; Python would compute a negative column), so `C13_respects_center` says nothing about
+it: here the child is the checkbox of `C13_checkbox_overflows`. -/
+theorem C13_center_wide_child_refused :
+    errOf ((Wd.center {} (.checkbox {} ['x'] none none true)).render asciiClass 2) = some .outOfDomain := by
+  decide +kernel
+
+/-! Non-vacuity of `Wd.Fits`: a numbered column-major list holding a window (title, text, separator), a
+nested two-column list, a checkbox with a title and a centered text satisfies `Wd.Fits` and renders at
+width 30 (columns width 14, items rendered at width 11) without a row longer than 30. -/
+example :
+    (fun nested : Wd =>
+      nested.Fits = true ∧
+      (nested.render asciiClass 30).toOption.map Wd.lines =
+        some ["1) T            3) [x] title".toList, "   ".toList, "   hello world".toList, "   ".toList,
+              "2) ab    cd ef  4)     mid".toList])
+      (.list {} true 2 none 2 (some {}) none []
+        [ .window {} (some "T".toList) [.text {} "hello world".toList, .sep {} 1],
+          .list {} false 2 none 1 none none [] [.text {} "ab".toList, .text {} "cd ef".toList],
+          .checkbox {} ['x'] (some "title".toList) none true,
+          .center {} (.text {} "mid".toList) ]) := by
+  decide +kernel
+
 /-! ### `LayoutOK` from the render -/
 
 /-- All the width clauses of `LayoutOK` (`WidthOK`: positive columns width, every item row plus its
@@ -151,7 +177,7 @@ theorem C13_width_ok (cc : CharClass) (st : WSt) (cm : Bool) (columns : Nat) (cw
     (h : (Wd.list st cm columns cw spacing kp u nw items).render cc w = .ok r)
     (sh : ListShape cc cm columns cw spacing kp items w r items' labels)
     (hfit : ∀ i, (hi : i < items.length) →
-      RespectsWidth cc items[i] (usedWidth cw columns spacing w - labelLen labels i)) :
+      RespectsWidth cc items[i] (usedWidth cw columns spacing w - kpLabelLen kp i)) :
     WidthOK (usedWidth cw columns spacing w) labels (items'.map Wd.lines) :=
   widthOK_of_render cc st cm columns cw spacing kp u nw items w r items' labels hne h sh hfit
 
@@ -167,7 +193,7 @@ theorem C13_layout_ok (cc : CharClass) (st : WSt) (cm : Bool) (columns : Nat) (c
     (h : (Wd.list st cm columns cw spacing kp u nw items).render cc w = .ok r)
     (sh : ListShape cc cm columns cw spacing kp items w r items' labels)
     (hfit : ∀ i, (hi : i < items.length) →
-      RespectsWidth cc items[i] (usedWidth cw columns spacing w - labelLen labels i)) :
+      RespectsWidth cc items[i] (usedWidth cw columns spacing w - kpLabelLen kp i)) :
     LayoutOK (usedWidth cw columns spacing w) labels (items'.map Wd.lines) :=
   layoutOK_of_render' cc st cm columns cw spacing kp u nw items w r items' labels hkp h0 h sh hfit
 
@@ -209,8 +235,26 @@ theorem C13_layout_ok_needs_no_newline :
   ⟨render_ok_of_isSome _ (by decide +kernel),
    fun _ _ _ sh => not_layoutOK_of_label_rows sh 0 (by decide) 2 (by decide) (by decide +kernel)⟩
 
+/-- In general: a text with a line break renders to at least two rows at any width ≥ 1 … -/
+theorem C13_newline_two_rows (cc : CharClass) (st : WSt) (t : List Char) (w : Nat) (hw : 1 ≤ w)
+    (hnl : '\n' ∈ t) (s : WSt) (h : renderTextSt cc st t w = .ok s) : 2 ≤ s.buf.length :=
+  render_newline_rows cc st t w hw hnl s h
+
+/-- … so with a line break anywhere in the key pattern *no* render of a non-empty list container
+satisfies `LayoutOK`: for line breaks the side condition `KeyPat.Plain` is exact. -/
+theorem C13_layout_ok_never_with_newline {cc : CharClass} {cm : Bool} {columns : Nat} {cw : Option Int}
+    {spacing : Nat} {k : KeyPat} {items : List Wd} {w : Int} {r : Wd} {items' : List Wd}
+    {labels : List (Option NumW)}
+    (sh : ListShape cc cm columns cw spacing (some k) items w r items' labels)
+    (hne : items ≠ []) (hnl : '\n' ∈ k.pre ++ k.post) :
+    ¬ LayoutOK (usedWidth cw columns spacing w) labels (items'.map Wd.lines) :=
+  not_layoutOK_of_newline sh hne hnl
+
 /-- A tab in the key pattern: `textwrap` expands it to blanks *after* the label's length was taken as
-the width, so the label `"1\t)"` of the pattern `"{:d}\t)"` no longer fits and renders to two rows. -/
+the width, so the label `"1\t)"` of the pattern `"{:d}\t)"` no longer fits and renders to two rows.
+(Unlike a line break a tab is not always fatal: one that happens to expand to a single blank keeps the
+label on one row by `C13_one_row`, and so does a leading or trailing tab, whose blanks `textwrap`
+drops. `KeyPat.Plain` excludes every tab.) -/
 theorem C13_layout_ok_needs_no_tab :
     (∃ r, (Wd.list {} false 1 none 0 (some { pre := [], post := ['\t', ')'] }) none []
         [.text {} ['x']]).render asciiClass 10 = .ok r) ∧
@@ -240,7 +284,7 @@ theorem C13_place_items_render (cc : CharClass) (st : WSt) (cm : Bool) (columns 
     (h : (Wd.list st cm columns cw spacing kp u nw items).render cc w = .ok r)
     (sh : ListShape cc cm columns cw spacing kp items w r items' labels)
     (hfit : ∀ i, (hi : i < items.length) →
-      RespectsWidth cc items[i] (usedWidth cw columns spacing w - labelLen labels i))
+      RespectsWidth cc items[i] (usedWidth cw columns spacing w - kpLabelLen kp i))
     (i : Nat) (hi : i < items'.length) (a b : Nat) (ha : a < items'[i].lines.length)
     (hb : b < (items'[i].lines[a]).length) :
     cell r.lines
@@ -257,7 +301,7 @@ theorem C13_place_labels_render (cc : CharClass) (st : WSt) (cm : Bool) (columns
     (h : (Wd.list st cm columns cw spacing kp u nw items).render cc w = .ok r)
     (sh : ListShape cc cm columns cw spacing kp items w r items' labels)
     (hfit : ∀ i, (hi : i < items.length) →
-      RespectsWidth cc items[i] (usedWidth cw columns spacing w - labelLen labels i))
+      RespectsWidth cc items[i] (usedWidth cw columns spacing w - kpLabelLen kp i))
     (i : Nat) (hi : i < items.length) (row : List Char) (hrow : labelBuf labels i = [row])
     (b : Nat) (hb : b < row.length) :
     cell r.lines
@@ -305,6 +349,114 @@ theorem C13_place_labels_text (cc : CharClass) (st : WSt) (cm : Bool) (columns :
   place_labels_render cc st cm columns cw spacing kp u nw items w r items' labels hkp h sh
     (fun i hi => text_items_respect cc items htext i hi _) i hi row hrow b hb
 
+/-! ### placement needs no condition on the key pattern
+
+The clause `label_rows` of `LayoutOK` ("a label is at most one row high") is not used by the placement
+proofs: they go through with `WidthOK` (`LayoutOK` without that clause), which holds for every key
+pattern (`C13_width_ok`). So items and labels are placed as computed also when a label wraps to several
+rows; the label then occupies the first rows of its cell, every row from the band's left edge. -/
+
+/-- `LayoutOK` implies `WidthOK` (it is `WidthOK` plus the one-row clause). -/
+theorem C13_width_ok_of_layout_ok {used : Int} {labels : List (Option NumW)} {grids : List Grid}
+    (ok : LayoutOK used labels grids) : WidthOK used labels grids :=
+  widthOK_of_layoutOK ok
+
+/-- `C13_place_items` from `WidthOK` alone: labels of any height. -/
+theorem C13_place_items_any_labels (cm : Bool) (columns : Nat) (hc : 1 ≤ columns) (used : Int) (spacing : Nat)
+    (labels : List (Option NumW)) (grids : List Grid) (rowH : Nat → Nat)
+    (wo : WidthOK used labels grids)
+    (hH : ∀ i, (hi : i < grids.length) →
+      max grids[i].length (labelBuf labels i).length ≤ rowH (cellOf cm columns grids.length i).1)
+    (i : Nat) (hi : i < grids.length) (a b : Nat) (ha : a < grids[i].length) (hb : b < (grids[i][a]).length) :
+    cell (drawColumns used spacing labels grids rowH (orderedMap cm columns grids.length) {} 0).buf
+      (rowTop rowH (cellOf cm columns grids.length i).1 + a)
+      (colLeft used spacing (cellOf cm columns grids.length i).2 + labelLen labels i + b) = some (grids[i][a])[b] :=
+  place_itemsW cm columns hc used spacing labels grids rowH wo hH i hi a b ha hb
+
+/-- `C13_place_labels` from `WidthOK` alone and for every row `a` of the rendered label: it is shown
+on row `a` of the cell from the band's left edge. -/
+theorem C13_place_labels_any_labels (cm : Bool) (columns : Nat) (hc : 1 ≤ columns) (used : Int) (spacing : Nat)
+    (labels : List (Option NumW)) (grids : List Grid) (rowH : Nat → Nat)
+    (wo : WidthOK used labels grids)
+    (hH : ∀ i, (hi : i < grids.length) →
+      max grids[i].length (labelBuf labels i).length ≤ rowH (cellOf cm columns grids.length i).1)
+    (i : Nat) (hi : i < grids.length) (a b : Nat) (ha : a < (labelBuf labels i).length)
+    (hb : b < ((labelBuf labels i)[a]).length) :
+    cell (drawColumns used spacing labels grids rowH (orderedMap cm columns grids.length) {} 0).buf
+      (rowTop rowH (cellOf cm columns grids.length i).1 + a)
+      (colLeft used spacing (cellOf cm columns grids.length i).2 + b) = some ((labelBuf labels i)[a])[b] :=
+  place_labelsW cm columns hc used spacing labels grids rowH wo hH i hi a b ha hb
+
+/-- Placement of the items for a successful render with *any* key pattern, items that respect their
+widths. -/
+theorem C13_place_items_any_pattern (cc : CharClass) (st : WSt) (cm : Bool) (columns : Nat) (cw : Option Int)
+    (spacing : Nat) (kp : Option KeyPat) (u : Option Int) (nw : List NumW) (items : List Wd) (w : Int) (r : Wd)
+    (items' : List Wd) (labels : List (Option NumW))
+    (h : (Wd.list st cm columns cw spacing kp u nw items).render cc w = .ok r)
+    (sh : ListShape cc cm columns cw spacing kp items w r items' labels)
+    (hfit : ∀ i, (hi : i < items.length) →
+      RespectsWidth cc items[i] (usedWidth cw columns spacing w - kpLabelLen kp i))
+    (i : Nat) (hi : i < items'.length) (a b : Nat) (ha : a < items'[i].lines.length)
+    (hb : b < (items'[i].lines[a]).length) :
+    cell r.lines
+      (rowTop (rowHeight cm columns (listHeights (items'.map Wd.lines) labels))
+        (cellOf cm columns items.length i).1 + a)
+      (colLeft (usedWidth cw columns spacing w) spacing (cellOf cm columns items.length i).2
+        + labelLen labels i + b) = some (items'[i].lines[a])[b] :=
+  place_items_renderW cc st cm columns cw spacing kp u nw items w r items' labels h sh hfit i hi a b ha hb
+
+/-- Placement of every row of every number label for a successful render with *any* key pattern. -/
+theorem C13_place_labels_any_pattern (cc : CharClass) (st : WSt) (cm : Bool) (columns : Nat) (cw : Option Int)
+    (spacing : Nat) (kp : Option KeyPat) (u : Option Int) (nw : List NumW) (items : List Wd) (w : Int) (r : Wd)
+    (items' : List Wd) (labels : List (Option NumW))
+    (h : (Wd.list st cm columns cw spacing kp u nw items).render cc w = .ok r)
+    (sh : ListShape cc cm columns cw spacing kp items w r items' labels)
+    (hfit : ∀ i, (hi : i < items.length) →
+      RespectsWidth cc items[i] (usedWidth cw columns spacing w - kpLabelLen kp i))
+    (i : Nat) (hi : i < items.length) (a b : Nat) (ha : a < (labelBuf labels i).length)
+    (hb : b < ((labelBuf labels i)[a]).length) :
+    cell r.lines
+      (rowTop (rowHeight cm columns (listHeights (items'.map Wd.lines) labels))
+        (cellOf cm columns items.length i).1 + a)
+      (colLeft (usedWidth cw columns spacing w) spacing (cellOf cm columns items.length i).2 + b)
+      = some ((labelBuf labels i)[a])[b] :=
+  place_labels_renderW cc st cm columns cw spacing kp u nw items w r items' labels h sh hfit i hi a b ha hb
+
+/-- End to end for `TextWidget` items with no side condition at all: the only hypothesis on the inputs
+is that the items are text widgets (a successful render already implies `columns ≥ 1`). -/
+theorem C13_place_items_text_any_pattern (cc : CharClass) (st : WSt) (cm : Bool) (columns : Nat)
+    (cw : Option Int) (spacing : Nat) (kp : Option KeyPat) (u : Option Int) (nw : List NumW) (items : List Wd)
+    (w : Int) (r : Wd) (items' : List Wd) (labels : List (Option NumW))
+    (htext : ∀ it ∈ items, it.isText = true)
+    (h : (Wd.list st cm columns cw spacing kp u nw items).render cc w = .ok r)
+    (sh : ListShape cc cm columns cw spacing kp items w r items' labels)
+    (i : Nat) (hi : i < items'.length) (a b : Nat) (ha : a < items'[i].lines.length)
+    (hb : b < (items'[i].lines[a]).length) :
+    cell r.lines
+      (rowTop (rowHeight cm columns (listHeights (items'.map Wd.lines) labels))
+        (cellOf cm columns items.length i).1 + a)
+      (colLeft (usedWidth cw columns spacing w) spacing (cellOf cm columns items.length i).2
+        + labelLen labels i + b) = some (items'[i].lines[a])[b] :=
+  place_items_renderW cc st cm columns cw spacing kp u nw items w r items' labels h sh
+    (fun i hi => text_items_respect cc items htext i hi _) i hi a b ha hb
+
+/-- … and every row of every number label. -/
+theorem C13_place_labels_text_any_pattern (cc : CharClass) (st : WSt) (cm : Bool) (columns : Nat)
+    (cw : Option Int) (spacing : Nat) (kp : Option KeyPat) (u : Option Int) (nw : List NumW) (items : List Wd)
+    (w : Int) (r : Wd) (items' : List Wd) (labels : List (Option NumW))
+    (htext : ∀ it ∈ items, it.isText = true)
+    (h : (Wd.list st cm columns cw spacing kp u nw items).render cc w = .ok r)
+    (sh : ListShape cc cm columns cw spacing kp items w r items' labels)
+    (i : Nat) (hi : i < items.length) (a b : Nat) (ha : a < (labelBuf labels i).length)
+    (hb : b < ((labelBuf labels i)[a]).length) :
+    cell r.lines
+      (rowTop (rowHeight cm columns (listHeights (items'.map Wd.lines) labels))
+        (cellOf cm columns items.length i).1 + a)
+      (colLeft (usedWidth cw columns spacing w) spacing (cellOf cm columns items.length i).2 + b)
+      = some ((labelBuf labels i)[a])[b] :=
+  place_labels_renderW cc st cm columns cw spacing kp u nw items w r items' labels h sh
+    (fun i hi => text_items_respect cc items htext i hi _) i hi a b ha hb
+
 /-! Non-vacuity: a numbered two-column list of three texts that all wrap renders at width 15 (columns
 width 6, labels 3 long, items rendered at width 3); the hypotheses of `C13_place_items_text` hold; the
 `'f'` of `"ff"` (item 2, row `a = 1`, column `b = 0` of its rendering) is at the predicted cell: row
@@ -322,6 +474,41 @@ example :
           (colLeft (usedWidth none 2 3 15) 3 (cellOf false 2 3 1).2 + 3 + 0))) =
       some (["1) aa    2) cc".toList, "   bb       dd".toList, "3) ee".toList, "   ff".toList],
         some 'f', some 'd') := by
+  decide +kernel
+
+/-! … and by construction: for that list the hypotheses of `C13_place_items_text` are satisfied together
+(the render succeeds, `C13_list_shape` provides the shape, there are three rendered items). -/
+example : ∃ r items' labels,
+    ListShape asciiClass false 2 none 3 (some {})
+      [.text {} "aa bb".toList, .text {} "cc dd".toList, .text {} "ee ff".toList] 15 r items' labels ∧
+    items'.length = 3 ∧
+    ∀ i (hi : i < items'.length) a b (ha : a < items'[i].lines.length) (hb : b < (items'[i].lines[a]).length),
+      cell r.lines
+        (rowTop (rowHeight false 2 (listHeights (items'.map Wd.lines) labels)) (cellOf false 2 3 i).1 + a)
+        (colLeft (usedWidth none 2 3 15) 3 (cellOf false 2 3 i).2 + labelLen labels i + b)
+        = some (items'[i].lines[a])[b] := by
+  obtain ⟨r, hr⟩ := render_ok_of_isSome
+    ((Wd.list {} false 2 none 3 (some {}) none []
+      [.text {} "aa bb".toList, .text {} "cc dd".toList, .text {} "ee ff".toList]).render asciiClass 15)
+    (by decide +kernel)
+  obtain ⟨items', labels, sh⟩ := C13_list_shape _ _ _ _ _ _ _ _ _ _ _ _ hr
+  exact ⟨r, items', labels, sh, sh.len_items, fun i hi a b ha hb =>
+    C13_place_items_text _ _ _ _ _ _ _ _ _ _ _ _ _ _ (by decide) (by decide) hr sh i hi a b ha hb⟩
+
+/-! Non-vacuity of the `_any_pattern` theorems: the pattern `"{:d}\n) "` (labels two rows high, 4 long)
+in a two-column list with spacing 1 at width 15 (columns width 7): the `')'` of label 0 is on row 1 of
+its cell at the band's left edge, the second `'b'` of item 0 (`"aa bb"` wrapped at width 3) at row 1,
+column `0 + 4 + 1`. -/
+example :
+    ((Wd.list {} false 2 none 1 (some { pre := [], post := ['\n', ')', ' '] }) none []
+        [.text {} "aa bb".toList, .text {} "c".toList, .text {} "d".toList]).render asciiClass 15).toOption.map
+      (fun r => (r.lines,
+        cell r.lines (rowTop (rowHeight false 2 [2, 2, 2]) (cellOf false 2 3 0).1 + 1)
+          (colLeft (usedWidth none 2 1 15) 1 (cellOf false 2 3 0).2 + 0),
+        cell r.lines (rowTop (rowHeight false 2 [2, 2, 2]) (cellOf false 2 3 0).1 + 1)
+          (colLeft (usedWidth none 2 1 15) 1 (cellOf false 2 3 0).2 + 4 + 1))) =
+      some (["1   aa  2   c".toList, ")   bb  )".toList, "3   d".toList, ")".toList],
+        some ')', some 'b') := by
   decide +kernel
 
 end Simpleline
